@@ -138,6 +138,17 @@ func (d dirFile) Read([]byte) (int, error) {
 }
 func (dirFile) Close() error { return nil }
 
+// Seek: an opened directory is seekable on a real OS (*os.File implements
+// io.Seeker and lseek succeeds on Linux); code that decides "seekable, do not
+// read into memory" from the file mode alone (seed C17-6) must meet the same
+// here as with a real directory
+func (dirFile) Seek(offset int64, whence int) (int64, error) {
+	if whence == io.SeekEnd {
+		return 0, nil
+	}
+	return offset, nil
+}
+
 func (v vfs) Open(name string) (fs.File, error) {
 	if b, ok := v.o.Files[name]; ok {
 		return memFile{SectionReader: io.NewSectionReader(bytes.NewReader(b), 0, int64(len(b))), name: name, size: int64(len(b))}, nil
